@@ -2,6 +2,7 @@ import Mitx.Driver.Proto
 import Mitx.Driver.Attempt
 import Mitx.Model.Grade
 import Mitx.Model.Tree
+import Mitx.Model.Interval
 /-! JSON ↔ model plumbing for grader trees (trusted test infrastructure). -/
 namespace Drv
 open Lean Proto Gr
@@ -136,6 +137,33 @@ def gradeCall (j : Json) : Except String Json := do
       pure (GInput.one inp, (f ans inp).map CheckOut.single)
   match call cfg att log inp res with
   | .ok o => pure (Json.mkObj [("out", outToJson o)])
+  | .error e => pure (errToJson e)
+
+end Drv
+
+namespace Drv
+open Lean Proto Gr
+
+def brAnsOfJson (j : Json) : Except String (List BrAns) :=
+  getList (fun a => do
+    pure ⟨← getList getStr (← field a "expect"), ← getRat (← field a "grade_decimal"), ← getStr (← field a "msg")⟩) j
+
+/-- op `interval_check`: `IntervalGrader.check_response` over a table-driven subgrader for the bounds -/
+def intervalCheck (j : Json) : Except String Json := do
+  let c ← field j "cfg"
+  let cfg : IvCfg := ⟨← getStr (← field c "opening"), ← getStr (← field c "closing"), ← getStr (← field c "delimiter"), ← getBool (← field c "partial_credit")⟩
+  let tab ← tabOfJson (← field j "tab")
+  let wrong ← getStr (fieldD j "wrong_msg" (Json.str ""))
+  let sub := itemCheck (tableCR tab) wrong
+  let mj ← field j "meta"
+  let m : AnsMeta := ⟨← getRat (← field mj "grade_decimal"), ← getStr (← field mj "msg"), ← okOfJson' (← field mj "ok")⟩
+  let opn ← brAnsOfJson (← field j "open")
+  let cls ← brAnsOfJson (← field j "close")
+  let lo ← itemAnswersOfJson (← field j "lo")
+  let hi ← itemAnswersOfJson (← field j "hi")
+  let inp ← getStr (← field j "input")
+  match intervalCheckResponse cfg sub m opn lo hi cls inp with
+  | .ok r => pure (Json.mkObj [("out", iresToJson r)])
   | .error e => pure (errToJson e)
 
 end Drv
